@@ -31,7 +31,7 @@ PROP = {
          ],
      "plain": ["TestVFC13RegressNullObject", "TestVFC13RegressNullDocument", "TestVFC13Golden"]},
         {"name": "startup", "pkg": "internal/home", "files": ["home/common_assembly_test.go", "home/c13_startup_test.go"],
-         "tests": [("TestVFC13StartupUpgrade", (300, 2000)), ("TestVFC13SpellingPreserved", (150, 1000))], "shards": (2, 8)},
+         "tests": [("TestVFC13StartupUpgrade", (300, 2000)), ("TestVFC13SpellingPreserved", (150, 1000))], "shards": (2, 8), "plain": ["TestVFC13NullLeaves"]},
     ],
     "level": "exploration",
     "technique": "property-based testing (rapid): metamorphic oracles (every split point of the version range, "
